@@ -51,7 +51,10 @@ func setup4(args ...string) (handler.Handler4, error) {
 }
 
 func Handler4(req, resp *dhcpv4.DHCPv4) (*dhcpv4.DHCPv4, bool) {
-	v6pref := req.IsOptionRequested(dhcpv4.OptionIPv6OnlyPreferred)
+	// RFC 8925 §3.1: the option is only for clients that explicitly list it.
+	// IsOptionRequested reports true for every option when the client sent no
+	// parameter request list at all, so check that there is one.
+	v6pref := req.ParameterRequestList() != nil && req.IsOptionRequested(dhcpv4.OptionIPv6OnlyPreferred)
 	log.WithFields(logrus.Fields{
 		"mac":      req.ClientHWAddr.String(),
 		"ipv6only": v6pref,
